@@ -96,6 +96,11 @@ def transforms_for(rng, case, tier):
                 x = y = None
             elif r < 0.3:
                 x, y = None, c["lat"][j]
+            elif r < 0.5 and len(c["lon"]) >= 2 and c["lon"][j + 1 if j + 1 < len(c["lon"]) else j - 1] is not None \
+                    and c["lat"][j + 1 if j + 1 < len(c["lat"]) else j - 1] is not None:
+                # the platform did not move: exactly the neighbour's fix (a zero-length hop)
+                nb = j + 1 if j + 1 < len(c["lon"]) else j - 1
+                x, y = c["lon"][nb], c["lat"][nb]
             else:
                 x = (c["lon"][j] if c["lon"][j] is not None else F(0)) + rng.choice([F(1, 64), -F(1, 2), F(3)])
                 y = (c["lat"][j] if c["lat"][j] is not None else F(0)) + rng.choice([F(1, 64), -F(1, 2), F(1)])
